@@ -271,6 +271,75 @@ def replay_late_cb(wj):
     return run_native("c14_late_done_callback", wj)
 
 
+def h_reaper(eng):
+    """The reaper task (the coroutine task_reaper defined inside Function.init, cut out of it mechanically): commands are handled
+    strictly one after the other, and a 'cancel' command is finished only when the cancelled task HAS ENDED - its exit path
+    (done callbacks, release of its unique names) runs to completion before the next command is taken, so that a second cancel
+    request cannot land inside that exit path.  Errors never end the reaper."""
+    import ast as _ast
+    from pyvc.interp import Env, EXC as _EXC
+    from pyvc.loader import parse_file
+    it = Interpreter(eng)
+    w = World(eng)
+    tree, _ = parse_file(F_PY)
+    cls = next(n for n in tree.body if isinstance(n, _ast.ClassDef) and n.name == "Function")
+    init = next(n for n in cls.body if isinstance(n, _ast.FunctionDef) and n.name == "init")
+    fn = next(n for n in _ast.walk(init) if isinstance(n, _ast.AsyncFunctionDef) and n.name == "task_reaper")
+    U = "C14/Function.init.task_reaper"
+    state = {"ended": False, "cancelled": 0}
+    how = ["ends-cancelled", "ends-with-error", "ends-normally"][eng.choose(3, "how-the-task-ends")]
+
+    def t_await(i):
+        # awaiting a task waits until it has ended, and re-raises how it ended
+        w.emit("task-ended")
+        state["ended"] = True
+        if how == "ends-cancelled":
+            raise exc("CancelledError")
+        if how == "ends-with-error":
+            raise exc("UserException", "task failed")
+        return None
+    task = Rec(fields={"cancel": lambda i: state.__setitem__("cancelled", state["cancelled"] + 1), "__await__": t_await}, name="task")
+    seen = []
+    cmds = [["cancel", task], ["bogus"], ["exit"]]
+
+    def q_get(i):
+        def th():
+            c = cmds.pop(0)
+            seen.append((c[0], state["ended"]))
+            return c
+        return Coro(th, "reaper_q.get")
+
+    def a_wait(i, aws, timeout=None, **k):
+        # asyncio.wait with a timeout may come back before the tasks have ended
+        def th():
+            if timeout is None or eng.choose(2, "wait-timed-out") == 0:
+                w.emit("task-ended")
+                state["ended"] = True
+            return (None, None)
+        return Coro(th, "asyncio.wait")
+    logged = []
+    env = Env(vars={"reaper_q": Rec(fields={"get": q_get}, name="reaper_q"),
+                    "asyncio": PyModule("asyncio", {"CancelledError": _EXC["CancelledError"], "wait": a_wait, "TimeoutError": _EXC["TimeoutError"],
+                                                    "wait_for": lambda i, aw, timeout=None: aw, "shield": lambda i, aw: aw}),
+                    "_LOGGER": Rec(fields={"error": lambda i, *a: logged.append(a), "debug": lambda i, *a: None}, name="_LOGGER"),
+                    "traceback": traceback_stub()})
+    from pyvc.interp import _Return
+
+    def run_body():
+        try:
+            it.exec_block(fn.body, env)
+        except _Return:
+            pass            # the coroutine's `return` on the exit command
+    k, v = run_catching(it, run_body)
+    eng.cover(f"ran:{k}:{how}")
+    eng.oblige(f"{U}/post.runs-until-the-exit-command", k == "ok" and [c for c, _ in seen] == ["cancel", "bogus", "exit"])
+    eng.oblige(f"{U}/post.the-task-is-cancelled-once", state["cancelled"] == 1)
+    ob = eng.oblige(f"{U}/post.next-command-only-after-the-cancelled-task-has-ended", len(seen) >= 2 and seen[1][1] is True)
+    if ob.status == "refuted":
+        ob.witness = {"signature": "reaper-moves-on-before-the-task-ended"}
+    eng.oblige(f"{U}/post.unknown-command-is-reported-not-fatal", len(logged) == (2 if how == "ends-with-error" else 1))
+
+
 def h_cancel(eng):
     it, w, mod, Fn, S = setup(eng)
     ours, cur = S["ours"], S["cur"]
@@ -415,6 +484,7 @@ def harnesses():
         Harness("registry", h_registry, units=[(F_PY, "Function.task_done_callback_ctx"), (F_PY, "Function.task_add_done_callback"),
                                                (F_PY, "Function.user_task_remove_done_callback")]),
         Harness("registry.unknown-task", h_add_cb_unknown, units=[(F_PY, "Function.task_add_done_callback")], replay=replay_late_cb),
+        Harness("reaper", h_reaper, units=[(F_PY, "Function.init")]),
         Harness("user_task_cancel", h_cancel, units=[(F_PY, "Function.user_task_cancel")]),
         Harness("task.create", h_task_create, units=[(T_PY, "TrigTime.init")]),
         Harness("task.executor", h_executor, units=[(T_PY, "TrigTime.user_task_executor")]),
